@@ -50,3 +50,21 @@ def _revkey(f):
     return f.kind == "oracle" and f.message.startswith("walk-reverse-key")
 
 
+
+
+@matcher("C20-non-ascii-counterparty")
+def _nonascii(f):
+    """a ledger loaded from a genesis that names a counterparty with a character outside ASCII: collections' non-terminal string
+    key encoding keeps only the first byte of each character, so the entry is stored under another key."""
+    if f.kind != "divergence" or not getattr(f, "stream", "").startswith("S3-non-ascii-counterparty"):
+        return False
+    upto = f.lines[: (f.index + 1) if f.index >= 0 else None]
+    for l in upto:
+        if l.startswith("genload "):
+            for part in re.findall(r"[|]([0-9a-f]*)(?=[|])", l):
+                try:
+                    if any(b >= 0x80 for b in bytes.fromhex(part)):
+                        return True
+                except ValueError:
+                    pass
+    return False
